@@ -69,6 +69,13 @@ def cases(thorough):
                     for op in (OPS if thorough else ("mean", "nanmean", "sum", "nanmax")):
                         yield dict(base, block="V", dz=1.0, dx=1.0, resolution={"x": 3, "y": 3, "z": rz}, operation=op, origin=o2, direction="z", virtual_threads=T_)
                 yield dict(base, block="V", dz=1.5, dx=1.5, resolution={"x": 5, "y": 4, "z": 5}, operation="nanmean", origin=o, direction="z", virtual_threads=T_)
+        # block X: special values in the column (inf is a value; inf + -inf is NaN and therefore a missing pixel) and element types
+        if ti % 2 == 1 or thorough:
+            for sp in (["inf"], ["-inf", "inf"], ["fmax", "denorm", "negzero"]):
+                for op in ("sum", "nanmean", "max", "nanmin"):
+                    yield dict(base, block="X", dz=1 / 2, dx=1.0, resolution=4, operation=op, origin=o, direction="z", special=sp)
+            for dtv in ("f4", "i8"):
+                yield dict(base, block="X", dz=1 / 2, dx=1.0, resolution=4, operation="sum", origin=o, direction="z", dens_dtype=dtv)
         # block S: sequences of thick maps in one process, mixing the default resolution, partial dictionaries and ints
         if ti in (0, 2):
             K1 = dict(base, dz=2 / 256, dx=1.0, resolution=None, operation="sum", origin=o, direction="z")
